@@ -508,8 +508,10 @@ func tryReplay(cc *checkCtx, fnKey string, o *Obligation) *ReplayResult {
 				res.Judge = "the real function panics on the candidate input, but not at " + o.Where + " (" + line + "); not counted"
 			}
 		} else {
-			res.Judge = "the real function panics on the model's input (" + line + "); the violated clause is a postcondition"
-			res.Confirmed = ct != nil && ct.NoPanic
+			// not counted: the candidate input need not satisfy the preconditions that are stated with abstract
+			// predicates (validBech32, validDenom ...), and the violated postcondition itself was not observed
+			res.Judge = "the real function panics on the candidate input (" + line + "); the violated clause is a postcondition and was not observed: not counted as a replay"
+			res.Confirmed = false
 		}
 		return res
 	}
